@@ -25,9 +25,14 @@ pub struct EdgeCfg {
     pub seeds: Vec<u64>,
     #[serde(default)]
     pub max_states: usize,
-    /// when > 0, keep only every n-th state beyond depth 2 (sampling for big levels)
     #[serde(default)]
     pub tag: String,
+    /// opcodes forced (with seed 1) before the enumeration starts: the BFS root is the state they reach
+    #[serde(default)]
+    pub prefix: Vec<u8>,
+    /// keep outcomes apart whenever the emitted bytes differ (value grid), not only by opcode byte
+    #[serde(default)]
+    pub full_bytes: bool,
 }
 
 type Proj = (Vec<u8>, Vec<(usize, u8)>);
@@ -112,9 +117,22 @@ pub fn enumerate(ec: &EdgeCfg, out: &mut dyn Write) -> (usize, usize) {
     let cfg = &ec.cfg;
     let mut seen: HashSet<Proj> = HashSet::new();
     let mut queue: VecDeque<Vec<Step>> = VecDeque::new();
-    let g0 = fresh(cfg);
-    seen.insert(coarse(&proj(&g0)));
-    queue.push_back(Vec::new());
+    let mut root: Vec<Step> = Vec::new();
+    {
+        let mut g0 = fresh(cfg);
+        for b in &ec.prefix {
+            if let Some(op) = op_by_byte(*b) {
+                if g0.verif_valid_opcodes().contains(&op) {
+                    if let Ok(bytes) = force(&mut g0, op, 1) {
+                        root.push(Step { op, seed: 1, bytes });
+                    }
+                }
+            }
+        }
+        seen.insert(coarse(&proj(&g0)));
+    }
+    let root_len = root.len();
+    queue.push_back(root);
     let (mut nstates, mut nedges) = (0usize, 0usize);
     let cfgj = json!({"P": cfg.p, "ext": if cfg.ext {1} else {0}, "buf": if cfg.buf {1} else {0},
                       "unsafe": if cfg.unsafe_ {1} else {0}, "min": cfg.min, "max": cfg.max});
@@ -152,7 +170,7 @@ pub fn enumerate(ec: &EdgeCfg, out: &mut dyn Write) -> (usize, usize) {
                 // outcomes that differ only in argument payload are the same edge
                 let head: Vec<u8> = bytes.iter().take(1).cloned().collect();
                 let key = (
-                    if seed >= SRC_EMPTY || matches!(op, OpcodeKind::Get | OpcodeKind::BinGet | OpcodeKind::LongBinGet) { bytes.clone() } else { head },
+                    if ec.full_bytes || seed >= SRC_EMPTY || matches!(op, OpcodeKind::Get | OpcodeKind::BinGet | OpcodeKind::LongBinGet) { bytes.clone() } else { head },
                     post.clone(),
                 );
                 if outcomes.contains_key(&key) {
@@ -163,10 +181,10 @@ pub fn enumerate(ec: &EdgeCfg, out: &mut dyn Write) -> (usize, usize) {
                 let line = json!({
                     "cfg": cfgj, "path": pathj, "op": op.as_u8(), "seed": seed.to_string(), "bytes": bytes,
                     "pre": proj_json(&pre), "post": proj_json(&post), "en": mask, "err": err,
-                    "depth": path.len(),
+                    "depth": path.len() - root_len,
                 });
                 writeln!(out, "{}", line).unwrap();
-                if path.len() < ec.depth && !seen.contains(&coarse(&post)) {
+                if path.len() - root_len < ec.depth && !seen.contains(&coarse(&post)) {
                     seen.insert(coarse(&post));
                     let mut p2 = path.clone();
                     p2.push(Step { op, seed, bytes });
